@@ -395,6 +395,27 @@ def guard (data : ByteArray) (mask cm prevM bestLen : Nat) : Option Bool :=
     | some a, some b => some (a ≠ b)
     | _, _ => none
 
+/-- a candidate of length `len` at cached distance number `i`: `if len >= 3 || (len == 2 && i < 2) { … }` -/
+def cacheAccept (lbs i len backward : Nat) (s : LoopSt) : LoopSt :=
+  if len ≥ 3 ∨ (len = 2 ∧ i < 2) then
+    let score := scoreLast lbs len
+    if s.bestScore < score then
+      let score := if i ≠ 0 then wsub score (penaltyLast i) else score
+      if s.bestScore < score then
+        ⟨score, len, { s.out with len := len, distance := backward, score := score }, true⟩
+      else s
+    else s
+  else s
+
+/-- a candidate of length `len` from the bucket: `if len != 0 { if best_score < score { … } }` -/
+def bucketAccept (lbs len backward : Nat) (s : LoopSt) : LoopSt :=
+  if len ≠ 0 then
+    let score := scoreBackward lbs len backward
+    if s.bestScore < score then
+      ⟨score, len, { s.out with len := len, distance := backward, score := score }, true⟩
+    else s
+  else s
+
 /-- one iteration of the distance-cache loop -/
 def cacheStep (lbs : Nat) (data : ByteArray) (mask curIx cm maxLength maxBackward : Nat)
     (cache : List Int) (i : Nat) (s : LoopSt) : Option LoopSt :=
@@ -412,16 +433,7 @@ def cacheStep (lbs : Nat) (data : ByteArray) (mask curIx cm maxLength maxBackwar
       | some false =>
         match findMatchLengthWithLimit data prevM cm maxLength with
         | none => none
-        | some len =>
-          if len ≥ 3 ∨ (len = 2 ∧ i < 2) then
-            let score := scoreLast lbs len
-            if s.bestScore < score then
-              let score := if i ≠ 0 then wsub score (penaltyLast i) else score
-              if s.bestScore < score then
-                some ⟨score, len, { s.out with len := len, distance := backward, score := score }, true⟩
-              else some s
-            else some s
-          else some s
+        | some len => some (cacheAccept lbs i len backward s)
 
 /-- the `while i > down` loop over the ring of the key's block; `bucketAt j` reads `bucket[j]` -/
 def bucketLoop (lbs : Nat) (data : ByteArray) (mask curIx cm maxLength maxBackward blockMask : Nat)
@@ -447,14 +459,8 @@ def bucketLoop (lbs : Nat) (data : ByteArray) (mask curIx cm maxLength maxBackwa
             match findMatchLengthWithLimitMin4 data prevM cm maxLength with
             | none => none
             | some len =>
-              let s :=
-                if len ≠ 0 then
-                  let score := scoreBackward lbs len backward
-                  if s.bestScore < score then
-                    ⟨score, len, { s.out with len := len, distance := backward, score := score }, true⟩
-                  else s
-                else s
-              bucketLoop lbs data mask curIx cm maxLength maxBackward blockMask bucket cnt i s
+              bucketLoop lbs data mask curIx cm maxLength maxBackward blockMask bucket cnt i
+                (bucketAccept lbs len backward s)
 
 /-- `fn FindLongestMatch` of `AdvHasher`; `numLast` = `params.num_last_distances_to_check` -/
 def findLongestMatch (P : AdvP) (numLast lbs : Nat) (dict : Option (List DictItem))
@@ -517,6 +523,15 @@ def kDistanceCacheOffset : List Int := [0, 0, 0, 0, -1, 1, -2, 2, -3, 3, -1, 1, 
 
 abbrev LoopSt := Adv.LoopSt
 
+/-- `if len >= 3 || (len == 2 && i < 2) { if best_score < score { … } }` of the H9 cache loop -/
+def cacheAccept (lbs i len backward : Nat) (s : LoopSt) : LoopSt :=
+  if len ≥ 3 ∨ (len = 2 ∧ i < 2) then
+    let score := scoreLastH9 lbs len i
+    if s.bestScore < score then
+      ⟨score, len, { s.out with len := len, distance := backward, score := score }, true⟩
+    else s
+  else s
+
 /-- one iteration of `for i in 0..H9_NUM_LAST_DISTANCES_TO_CHECK` -/
 def cacheStep (lbs : Nat) (data : ByteArray) (mask curIx cm maxLength maxBackward : Nat)
     (cache : List Int) (i : Nat) (s : LoopSt) : Option LoopSt :=
@@ -536,13 +551,7 @@ def cacheStep (lbs : Nat) (data : ByteArray) (mask curIx cm maxLength maxBackwar
       | some false =>
         match findMatchLengthWithLimit data prevM cm maxLength with
         | none => none
-        | some len =>
-          if len ≥ 3 ∨ (len = 2 ∧ i < 2) then
-            let score := scoreLastH9 lbs len i
-            if s.bestScore < score then
-              some ⟨score, len, { s.out with len := len, distance := backward, score := score }, true⟩
-            else some s
-          else some s
+        | some len => some (cacheAccept lbs i len backward s)
 
 /-- loop state of the bucket scan: `prev_best_val` is carried along -/
 structure ScanSt where
